@@ -31,6 +31,36 @@ class FunctionReport:
 from .frames import walk_leaves, leaf_equal  # noqa
 
 
+def invariant_clauses(spec, eng, sv, names, heap=True):
+    out = []
+    seen = set()
+
+    def rec(v):
+        if isinstance(v, ObjV):
+            if id(v) in seen:
+                return
+            seen.add(id(v))
+            inv = spec.invariants.get(v.cls)
+            if inv:
+                for nm, cl in inv(V(eng, sv._s, v), sv):
+                    out.append((f"{v.cls}.{nm}", cl))
+            for x in v.fields.values():
+                rec(x)
+        elif isinstance(v, Record):
+            if id(v) in seen:
+                return
+            seen.add(id(v))
+            for x in v.items.values():
+                rec(x)
+    for v in names.values():
+        rec(v)
+    if heap:
+        for hi in getattr(spec, 'heap_invariants', []):
+            for nm, cl in hi(sv):
+                out.append((f"heap.{nm}", cl))
+    return out
+
+
 class Verifier:
     def __init__(self, source, spec):
         self.src = source
@@ -111,6 +141,9 @@ class Verifier:
         return pr
 
     def invariant_clauses(self, eng, sv, names):
+        return invariant_clauses(self.spec, eng, sv, names)
+
+    def _unused(self, eng, sv, names):
         out = []
         seen = set()
 
@@ -133,6 +166,9 @@ class Verifier:
                     rec(x)
         for v in names.values():
             rec(v)
+        for hi in getattr(self.spec, 'heap_invariants', []):
+            for nm, cl in hi(sv):
+                out.append((f"heap.{nm}", cl))
         return out
 
     # ---------------------------------------------------------------- a plain function
@@ -193,7 +229,12 @@ class Verifier:
             pre_sv0 = SV(eng, st, names)
             for nm, cl in self.invariant_clauses(eng, pre_sv0, names):
                 st.assume(hyp_of(cl))
-        if c.requires:
+        elif c.invariants == 'post':
+            pre_sv0 = SV(eng, st, names)
+            for hi in getattr(self.spec, 'heap_invariants', []):
+                for nm, cl in hi(pre_sv0):
+                    st.assume(hyp_of(cl))
+        if c.requires and (frm is None or frm == -1):
             ctx0 = Ctx(eng, SV(eng, st, names), SV(eng, st, names))
             for nm, cl in c.requires(ctx0):
                 st.assume(hyp_of(cl))
@@ -258,6 +299,12 @@ class Verifier:
         q = c.qual
         if outcome[0] in ('yield', 'return'):
             self.check_spawns(eng, q, f"seg{frm}" if frm is not None else 'call')
+            if frm is None or frm == -1:
+                # a declared raise condition is exact: when it holds on entry the call must not complete normally
+                ctx0 = Ctx(eng, old, old)
+                for exc, r in c.raises.items():
+                    if r.get('when') and r.get('exact', True):
+                        eng.oblige(f"raises:{q}:{exc}:must-raise-when", 'post', z3.Not(r['when'](ctx0)))
         if frm is not None:
             # generator segment: the final view also sees the live locals
             allnames = dict(names)
